@@ -21,7 +21,7 @@ def run(check):
     check.checker_cmd = 'clang++ -ast-dump=json | phqv tables/lower | goto-cc | goto-instrument --dfcc --enforce-contract {ConvertInPlace,Convert}<U,...> | cbmc (MiniSat) ; phqv symex (REAL) -> z3 for round trips and compile-time forms'
     check.assume('per-unit leaf conversions are uninterpreted functions here (tied to the real bodies by C01\'s leaf obligations); every entry point is proved to apply exactly To_original then From_new to each component, for every pair of enumerators in the declared range')
     check.assume('callee contracts of the 2 x (number of units) loop routines are emitted as generated stubs for the fixed size reached by the entry point (1, 2, 3, 6, 9); the loop routines themselves are proved against those contracts for one representative per direction after checking that all of them are the same IR up to the leaf they call')
-    check.notes.append('std::vector copying form Convert(const std::vector&) is outside the translated subset (vector copy construction); the in-place std::vector form is checked with a stated bound (size <= 8)')
+    check.notes.append('std::vector copying form Convert(const std::vector&) is outside the translated subset (vector copy construction); the in-place std::vector form is proved for all sizes through the loop contract of the array routine (ghost element index), the bounded run (size <= 8) is kept as a cross-check and labelled bounded')
     check.notes.append('"to within one ulp / up to rounding" for the round trip is C01\'s leaf bound applied to the pair (u, u); here the round trip is exact over the reals')
     units = Units(check, types=[T], shapes=True)
     low, Tb = units.low, units.tables
@@ -51,6 +51,7 @@ def run(check):
     loop_obligations(check, units, T)
     # ------------------------------------------------------------------ entry points, per unit type
     jobs = []
+    vjobs = []
     for ut in units.unit_types:
         utn = ut.split('::')[1]
         for shape, N in SHAPES:
@@ -70,12 +71,22 @@ def run(check):
             check.under_contract(f)
         except Unsupported as e:
             check.error('C02: %s' % e)
+        try:
+            f = find_vector_entry(units, ut, T)
+            vjobs.append((ut, f, 'C02.inplace.std_vector.%s' % utn))
+            check.under_contract(f)
+        except Unsupported as e:
+            check.error('C02: %s' % e)
     check.log('%d entry-point obligations' % len(jobs))
     obs = pmap(lambda j: dispatch.entry_point_job(check, units, j[0], T, j[1], j[2], j[3], j[4]), jobs)
     for j, ob in zip(jobs, obs):
         check.add(ob)
         if ob.status == 'failed':
             adjudicate_entry(check, units, j, ob, T)
+    for j, ob in zip(vjobs, pmap(lambda j: vector_entry_job(check, units, j[0], T, j[1], j[2]), vjobs)):
+        check.add(ob)
+        if ob.status == 'failed':
+            adjudicate_vector(check, units, j, ob, T)
     # ------------------------------------------------------------------ REAL: round trips and compile-time forms
     tasks = []
     for ut in units.unit_types:
@@ -114,6 +125,119 @@ def run(check):
                     if 'MISMATCH' in r.stdout:
                         rec['confirmed'], rec['mismatch'] = True, r.stdout.strip().split('\n')
             check.violations.append((ob, write_replay(check, ob, rec), '' if rec['confirmed'] else 'no-failing-input-found'))
+
+
+def find_vector_entry(units, ut, T):
+    """The instantiated PhQ::ConvertInPlace<ut, T>(std::vector<T>&, ut, ut)."""
+    low, a = units.low, units.ast
+    for o in a.walk():
+        if o.get('kind') == 'FunctionDecl' and o.get('name') == 'ConvertInPlace' and low.has_body(o) and \
+                any(x.get('kind') == 'TemplateArgument' for x in o.get('inner', ())):
+            ps = [x for x in o.get('inner', ()) if x.get('kind') == 'ParmVarDecl']
+            if len(ps) != 3:
+                continue
+            try:
+                t0, t1 = low.ntype(ps[0]), low.ntype(ps[1])
+            except (Unsupported, ValueError):
+                continue
+            if t1 == ('enum', ut) and t0 == ('ref', ('vec', ('f', T))):
+                return low.lower_func(o)
+    raise Unsupported('ConvertInPlace<%s, %s>(std::vector&) not instantiated' % (ut, T))
+
+
+def vector_entry_job(check, units, ut, T, f, name):
+    """std::vector in-place form, all sizes: for an arbitrary element index k < size the element becomes
+    Conv(old element k, original, new) bit for bit; data pointer and size are unchanged.  The array routines are replaced
+    by their contract (C02.loop.*.all-sizes): they must be called on the whole buffer, element k becomes leaf(element k).
+    The other elements keep their (arbitrary) initial values in the stub: only element k is observed, and any dependence of
+    the observed element on another element would fail the assertion because that element is arbitrary."""
+    low = units.low
+    loops_to = units.loop_funcs(ut, T, 'To')
+    loops_from = units.loop_funcs(ut, T, 'From')
+    ob = Ob(name, 'IEEE', f.qualname, '%s:%s' % (os.path.relpath(f.loc[0], astload.REPO), f.loc[1]))
+    try:
+        E = cemit.CEmitter(low)
+        spec, conv = dispatch.spec_functions(E, units, ut, T, loops_to, loops_from)
+        vals = [v for _, v in units.enumerators(ut)]
+        lo, hi = min(vals), max(vals)
+        KT = E.ctype(('enum', ut))
+        VT = E.ctype(('vec', ('f', T)))
+        spec += 'static unsigned long long phqv_bits(%s a) { union { %s d; unsigned long long u; } x; x.u = 0; x.d = a; return x.u; }\n' % (T, T)
+        spec += '%s *phqv_d0; unsigned long phqv_n; unsigned long phqv_k;\n' % T
+        stubs, stubbed = [], []
+        for lf in list(loops_to.values()) + list(loops_from.values()):
+            pv, ps = lf.params[0][0], lf.params[1][0]
+            stubs.append('%s\n{\n  __CPROVER_assert(%s == phqv_d0 && %s == phqv_n, "callee contract requires the whole buffer of the vector");\n'
+                         '  %s[phqv_k] = %s(%s[phqv_k]);\n}' % (
+                             E.proto(lf), pv, ps, pv, dispatch.uf_name(lf), pv))
+            stubbed.append(lf.cname)
+        harness = ('void harness(void) {\n  %s v; unsigned long n; unsigned long k; %s o; %s nn;\n'
+                   '  __CPROVER_assume(n >= 1 && n < 1000000000000UL && k < n);\n'
+                   '  __CPROVER_assume(o >= %d && o <= %d && nn >= %d && nn <= %d);\n'
+                   '  v.data = (%s *)__CPROVER_allocate(n * sizeof(%s), 0); v.size = n;\n'
+                   '  phqv_d0 = v.data; phqv_n = n; phqv_k = k;\n  %s oldk = v.data[k];\n'
+                   '  %s(&v, o, nn);\n'
+                   '  __CPROVER_assert(v.data == phqv_d0 && v.size == n, "data pointer and size unchanged");\n'
+                   '  __CPROVER_assert(phqv_bits(v.data[k]) == phqv_bits(%s(oldk, o, nn)), "element k == Conv(old element k, original, new)");\n}\n') % (
+                       VT, KT, KT, lo, hi, lo, hi, T, T, T, f.cname, conv)
+        txt = E.unit([f], extra=spec, bodyless=stubbed) + '\n'.join(stubs) + '\n' + harness
+        ob.text = 'for every size n in [1, 10^12), every k < n, every pair of enumerators in [%d, %d]: after %s(v, o, nn): v[k] == Conv(old v[k], o, nn) bit for bit, v.data() and v.size() unchanged; callees replaced by the array-routine contract' % (lo, hi, f.qualname)
+        r = cbmc.verify(txt, os.path.join(check.work, 'cbmc'), re.sub(r'\W+', '_', name), backend='sat', timeout=600, flags=['--bounds-check', '--pointer-check'], object_bits=None)
+        ob.seconds, ob.backend = r.seconds, r.backend
+        mine = [p for p in r.props if 'element k ==' in p[2] or 'data pointer and size' in p[2]]
+        if r.status == 'ok':
+            if len(mine) != 2:
+                ob.status, ob.detail = 'error', 'vacuity: %d of 2 assertions reported' % len(mine)
+            else:
+                ob.status = 'discharged'
+        elif r.status == 'failed':
+            ob.status = 'failed'
+            ob.detail = 'cbmc FAILURE: ' + '; '.join('%s (%s)' % (p[0], p[2][:90]) for p in r.failed()[:5])
+            ob.cex = r.trace
+        else:
+            ob.status, ob.detail = 'undecided', '%s %s' % (r.status, r.note[:300])
+    except Unsupported as e:
+        ob.status, ob.detail = 'error', 'Unsupported: %s' % e
+    return ob
+
+
+def adjudicate_vector(check, units, j, ob, T):
+    ut, f, name = j
+    utn = ut.split('::')[1]
+    tr = ob.cex or {}
+    names = {v: n for n, v in units.enumerators(ut)}
+
+    def ival(key):
+        ent = tr.get(key)
+        if not ent:
+            return None
+        m = re.search(r'-?\d+', ent[0])
+        return int(m.group(0)) if m else None
+    o, n = ival('o'), ival('nn')
+    rec = {'property': 'C02', 'obligation': ob.name, 'function': ob.function, 'source': ob.loc, 'verifier_output': ob.detail,
+           'trace_enumerators': {'original': names.get(o, o), 'new': names.get(n, n)}}
+    confirmed = False
+    pairs = [(o, n)] if o in names and n in names else []
+    ks = sorted(names)
+    pairs += [(a_, b_) for a_ in ks[-2:] for b_ in ks[-2:]] + [(ks[0], ks[-1]), (ks[-1], ks[0])]
+    for (po, pn) in pairs[:7]:
+        O, Nn = 'PhQ::Unit::%s::%s' % (utn, names[po]), 'PhQ::Unit::%s::%s' % (utn, names[pn])
+        cpp = ('#include <PhQ/Unit/%s.hpp>\n#include <PhQ/Unit.hpp>\n#include <cstdio>\n#include <vector>\nint main() {\n'
+               '  const std::vector<%s> v0 = {1.5, -2.5, 3.5, 1000.25, -0.125};\n  std::vector<%s> v = v0;\n  PhQ::ConvertInPlace(v, %s, %s);\n  int bad = 0;\n'
+               '  if (v.size() != v0.size()) { std::printf("MISMATCH size %%zu\\n", v.size()); return 1; }\n'
+               '  for (std::size_t i = 0; i < v0.size(); ++i) { const %s want = PhQ::Convert(v0[i], %s, %s); if (!(v[i] == want)) { std::printf("MISMATCH element %%zu: %%.17g, scalar conversion gives %%.17g\\n", i, (double)v[i], (double)want); bad++; } }\n'
+               '  return bad ? 1 : 0;\n}\n') % (utn, T, T, O, Nn, T, O, Nn)
+        r, err = replay.build_and_run(cpp, os.path.join(check.work, 'replay'), 'r_' + re.sub(r'\W+', '_', ob.name), sanitize=True)
+        if err:
+            rec['replay_error'] = err[:600]
+            break
+        if 'MISMATCH' in r.stdout or r.returncode != 0:
+            confirmed = True
+            rec.update({'cpp': cpp, 'native_output': r.stdout, 'inputs': {'original': names[po], 'new': names[pn]},
+                        'mismatch': r.stdout.strip().split('\n')[:6] or [r.stderr[-300:]]})
+            break
+    rec['confirmed'] = confirmed
+    check.violations.append((ob, write_replay(check, ob, rec), '' if confirmed else 'no-failing-input-found'))
 
 
 def loop_obligations(check, units, T):
@@ -156,24 +280,24 @@ def loop_obligations(check, units, T):
         uf = '__CPROVER_uninterpreted_leaf'
         ln = leaf.params[0][0]
         leaf_stub = '%s\n{\n  *%s = %s(*%s);\n}' % (E.proto(leaf), ln, uf, ln)
-        ghost = ('double *phqv_base; unsigned long phqv_k; unsigned long phqv_size; unsigned long long phqv_oldbits; unsigned long long phqv_uoldbits;\n'
+        ghost = ('double *phqv_base; double *phqv_end; unsigned long phqv_k; unsigned long phqv_size; unsigned long long phqv_oldbits; unsigned long long phqv_uoldbits;\n'
                  'double %s(double);\n'
                  'static unsigned long long phqv_bits(double a) { union { double d; unsigned long long u; } x; x.d = a; return x.u; }\n') % uf
-        E.prologue = {lf.cname: ['phqv_base = %s; phqv_size = %s; phqv_oldbits = phqv_bits(%s[phqv_k]); phqv_uoldbits = phqv_bits(%s(%s[phqv_k]));' % (pv, ps, pv, uf, pv)]}
+        E.prologue = {lf.cname: ['phqv_base = %s; phqv_end = %s + %s; phqv_size = %s; phqv_oldbits = phqv_bits(%s[phqv_k]); phqv_uoldbits = phqv_bits(%s(%s[phqv_k]));' % (pv, pv, ps, ps, pv, uf, pv)]}
         off = '__CPROVER_POINTER_OFFSET(%s)' % pv
         E.loop_annot = {lf.cname: [
             '__CPROVER_assigns(%s, __CPROVER_object_whole(phqv_base))' % pv,
             '__CPROVER_loop_invariant(__CPROVER_same_object(%s, phqv_base) && %s >= 0 && (unsigned long)%s <= phqv_size * sizeof(double) && %s %% sizeof(double) == 0)' % (pv, off, off, off),
             '__CPROVER_loop_invariant(*(unsigned long long *)(phqv_base + phqv_k) == ((phqv_k * sizeof(double) < (unsigned long)%s) ? phqv_uoldbits : phqv_oldbits))' % off,
-            '__CPROVER_decreases(phqv_size * sizeof(double) - (unsigned long)%s)' % off]}
+            '__CPROVER_decreases(phqv_end - %s)' % pv]}
         contract = ['__CPROVER_requires(%s < 1000000000000UL && __CPROVER_is_fresh(%s, %s * sizeof(double)))' % (ps, pv, ps),
                     '__CPROVER_requires(phqv_k < %s)' % ps,
-                    '__CPROVER_assigns(__CPROVER_object_whole(%s), phqv_base, phqv_oldbits, phqv_uoldbits, phqv_size)' % pv,
+                    '__CPROVER_assigns(__CPROVER_object_whole(%s), phqv_base, phqv_end, phqv_oldbits, phqv_uoldbits, phqv_size)' % pv,
                     '__CPROVER_ensures(phqv_bits(%s[phqv_k]) == phqv_bits(%s(__CPROVER_old(%s[phqv_k]))))' % (pv, uf, pv)]
         harness = 'void harness(void) { double *v; unsigned long n; unsigned long nk; phqv_k = nk; %s(v, n); }\n' % lf.cname
         txt = E.unit([lf], contracts={lf.cname: contract}, bodyless=[leaf.cname], extra=ghost) + leaf_stub + '\n' + harness
-        r = cbmc.verify(txt, os.path.join(check.work, 'cbmc'), re.sub(r'\W+', '_', name), enforce=lf.cname, loop_contracts=True, backend='sat', timeout=600,
-                        flags=['--bounds-check', '--pointer-check'])
+        r = cbmc.verify(txt, os.path.join(check.work, 'cbmc'), re.sub(r'\W+', '_', name), enforce=lf.cname, loop_contracts=True, backend='sat', timeout=900,
+                        flags=['--bounds-check', '--pointer-check'], object_bits=None)
         ob.seconds, ob.backend = r.seconds, r.backend + ' (DFCC loop contracts)'
         ob.text = '\n'.join(contract + E.loop_annot[lf.cname]) + '\n/* for every size < 10^12 and every index k < size: element k becomes leaf(old element k) bit for bit; only the buffer is written; the loop terminates */'
         inv = [p for p in r.props if 'loop_invariant_step' in p[0]]
